@@ -279,6 +279,53 @@ def stream_renames(ctx, n, order, order2, tts, nmaps, aged):
     ctx.sample(dict(stream=s.label, first_lines=s.lines[:8]))
 
 
+def stream_reorder_cache(ctx, n, reps):
+    """a warm result cache across an explicit `reorder(bdd, order)` (no collection first;
+    its swaps free inner nodes that only level-x parents kept alive): the same question
+    asked again after new nodes took the freed numbers has the same answer, and connectives
+    agree with the node-by-node route"""
+    rng = ctx.rng
+    full = T.full(n)
+    for _ in range(reps):
+        order = list(range(n))
+        rng.shuffle(order)
+        M = Mgr(ctx, f'reorder with a warm cache n={n} order={order}', n, order)
+        vs = [M.op('var', j) for j in range(n)]
+        for v in vs:
+            M.op('incref', v)
+        # inner results used only inside held outer ones
+        qs = []
+        for _ in range(3):
+            i, j, k = rng.sample(range(n), 3) if n >= 3 else (0, 1, 0)
+            o1, o2 = rng.choice(['and', 'or', 'xor']), rng.choice(['and', 'or', 'xor'])
+            inner = M.op('apply', o1, vs[j], vs[k], None)
+            ti = gen.conn(o1, T.var(j, n), T.var(k, n), full)
+            outer = M.op('apply', o2, vs[i], inner, None)
+            if outer is not None and abs(outer) != 1:
+                M.op('incref', outer)
+            qs.append((o1, j, k, ti))
+        target = list(range(n))
+        rng.shuffle(target)
+        M.op('reorder', dict(zip(range(n), target)))
+        for _ in range(2):
+            M.build(rng.getrandbits(1 << n))        # new nodes take freed numbers
+        for (o1, j, k, ti) in qs:
+            r = M.op('apply', o1, vs[j], vs[k], None)
+            ctx.case(('reorder-cache', n, tuple(order), tuple(target), o1, j, k), True)
+            ctx.count('reorder-cache')
+            if r is None or M.tt(r) != ti:
+                ctx.violation('C02:routes-differ',
+                              f'after reorder(order), {o1}(v{j}, v{k}) asked again returned {r} denoting '
+                              f'{M.tt(r) if r is not None else None}, expected {ti:#x}', M.case())
+                return
+            g = M.build(ti)
+            if g != r:
+                ctx.violation('C02:routes-differ', f'{o1}(v{j}, v{k}) is {r}, built node by node {g}', M.case())
+                return
+        if not M.check_table('C02:table', 'after reorder with a warm cache'):
+            return
+
+
 def stream_large(ctx, n, target):
     """a manager with several hundred nodes (node numbers beyond every small-integer
     special case of the host language): redundant tests must still be eliminated and
@@ -484,6 +531,8 @@ def run(ctx):
             stream_renames(ctx, n, order, order2,
                            [rng.getrandbits(1 << n) for _ in range(3 if q else 10)] + [(1 << (1 << n)) - 2, 1 << ((1 << n) - 1)],
                            12 if q else 60, rng.random() < 0.5)
+    for n_ in (3, 4, 5):
+        stream_reorder_cache(ctx, n_, 6 if q else 60)
     stream_large(ctx, 9, 320 if q else 700)
     if not q:
         stream_large(ctx, 10, 1200)
